@@ -547,3 +547,238 @@ class DimMapNd(DimMapBase):
     def ensures_raise(self, a, exc, cx, case):
         self.mode = "cyclic" if a.cyclic else ("trim" if a.trim else "strict")
         return super().ensures_raise(a, exc, cx, case)
+
+
+# =====================================================================================================================
+# calc.partial_transpose -- the axis permutation, for ALL n (symbolic number of subsystems, quantified via a skolem axis)
+# =====================================================================================================================
+
+
+class SymList:
+    """python list of ints of symbolic length: z3 array + length (mutated in place by .append)"""
+
+    def __init__(self, arr, n):
+        self.arr, self.n = arr, n
+
+    def get(self, j):
+        return z3.Select(self.arr, j)
+
+
+class SymSet:
+    """a collection of ints used only through membership"""
+
+    def __init__(self, mem):
+        self.mem = mem
+
+
+class Cat:
+    """the tuple display (*a, *b, ...) of sequences of symbolic length"""
+
+    def __init__(self, parts):
+        self.parts = parts
+
+
+class NdArr:
+    """a numpy array value seen as the chain of shape operations applied to a source"""
+
+    def __init__(self, src, chain=()):
+        self.src, self.chain = src, tuple(chain)
+
+
+def as_symlist(v):
+    if isinstance(v, SymList):
+        return v
+    if isinstance(v, list):
+        arr = z3.K(z3.IntSort(), z3.IntVal(0))
+        for j, x in enumerate(v):
+            arr = z3.Store(arr, j, x)
+        return SymList(arr, len(v))
+    raise Unsupported(f"not a list: {v!r}")
+
+
+SK_AXIS = z3.Int("j!axis")  # an arbitrary subsystem
+_prod_of = z3.Function("prod_of_dims", z3.ArraySort(z3.IntSort(), z3.IntSort()), z3.IntSort(), z3.IntSort())
+
+
+@register
+class PartialTranspose(Base):
+    """for every subsystem j < n: the transpose sends ket axis j to j + n and bra axis j + n to j when j is in sysa, and
+    leaves both in place otherwise;  reshape((*dims, *dims)) before, reshape((D, D)) after"""
+
+    target = "quimb/calc.py::partial_transpose"
+    floor = 8
+
+    def inputs(self, cx, case):
+        n = cx.Int("n")
+        return dict(p=cx.Opaque("p"), dims=SymList(cx.Array("dims", z3.IntSort(), z3.IntSort()), n),
+                    sysa=SymSet(cx.Array("in_sysa", z3.IntSort(), z3.BoolSort())))
+
+    def requires(self, a, case):
+        return {"n>=0": a.dims.n >= 0}
+
+    def call(self, cx, name, args, kwargs, node):
+        if name == "int2tup":
+            return args[0]  # [leaf] an int becomes a 1-tuple, a sequence a tuple: membership is unchanged
+        if name == "__len__" and isinstance(args[0], SymList):
+            return args[0].n
+        if name == "__contains__" and isinstance(args[0], SymSet):
+            return z3.Select(args[0].mem, args[1])
+        if name == ".append" and isinstance(args[0], SymList):
+            L = args[0]
+            L.arr, L.n = z3.Store(L.arr, L.n, args[1]), L.n + 1
+            return None
+        if name == "__tuple__":
+            return Cat([v for kind, v in args[0]] if all(kind == "star" for kind, v in args[0]) else args[0])
+        if name == "prod" and isinstance(args[0], SymList):
+            return _prod_of(args[0].arr, args[0].n)
+        if name == "qu":
+            return NdArr(("qu", args[0], args[1]))
+        if name == "np.asarray" and isinstance(args[0], NdArr):
+            return args[0]
+        if name in (".reshape", ".transpose") and isinstance(args[0], NdArr):
+            return NdArr(args[0].src, args[0].chain + ((name[1:], args[1]),))
+        return super().call(cx, name, args, kwargs, node)
+
+    @staticmethod
+    def axis_spec(a, ket, bra, j):
+        n, inA = a.dims.n, z3.Select(a.sysa.mem, j)
+        return And(ket.get(j) == If(inA, j + n, j), bra.get(j) == If(inA, j, j + n))
+
+    def inv(self, v):
+        ket, bra = as_symlist(v.perm_ket_inds), as_symlist(v.perm_bra_inds)
+        j = SK_AXIS
+        return {"lengths": And(zeq(ket.n, v.i), zeq(bra.n, v.i)), "i-range": And(0 <= v.i, v.i <= v.old.dims.n),
+                "ndims": zeq(v.ndims, v.old.dims.n),
+                "axes-so-far": Implies(And(0 <= j, j < v.i), self.axis_spec(v.old, ket, bra, j))}
+
+    @property
+    def loops(self):
+        fresh = lambda nm: (lambda cx: SymList(cx.Array(nm, z3.IntSort(), z3.IntSort()), cx.Int(nm + "_len")))
+        return {0: Loop("for i in range(ndims)", self.inv, extra_modifies=("perm_ket_inds", "perm_bra_inds"),
+                        retype={"perm_ket_inds": fresh("ket"), "perm_bra_inds": fresh("bra")})}
+
+    def ensures(self, a, r, cx, case):
+        d = {"shape-ops": isinstance(r, NdArr) and [op for op, _ in r.chain] == ["reshape", "transpose", "reshape"]
+             and r.src[0] == "qu" and r.src[1] is a.p and r.src[2] == "dop"}
+        if not d["shape-ops"]:
+            return d
+        (_, shp1), (_, perm), (_, shp2) = r.chain
+        d["reshape-to-(*dims,*dims)"] = isinstance(shp1, Cat) and len(shp1.parts) == 2 and all(x is a.dims for x in shp1.parts)
+        D = _prod_of(a.dims.arr, a.dims.n)
+        d["reshape-to-(D,D)"] = isinstance(shp2, tuple) and len(shp2) == 2 and And(shp2[0] == D, shp2[1] == D)
+        ok = isinstance(perm, Cat) and len(perm.parts) == 2 and all(isinstance(x, SymList) for x in perm.parts)
+        d["perm-is-(*ket,*bra)"] = ok
+        if ok:
+            ket, bra = perm.parts
+            j = SK_AXIS
+            # perm[j] = ket[j], perm[n + j] = bra[j]   (position n + j because len(ket) = n)
+            d["perm-lengths"] = And(ket.n == a.dims.n, bra.n == a.dims.n)
+            d["swap-exactly-sysa"] = Implies(And(0 <= j, j < a.dims.n), self.axis_spec(a, ket, bra, j))
+        return d
+
+
+# =====================================================================================================================
+# _dim_compressor / dim_compress -- state machine over the dims list (K <= 5 concrete positions, symbolic dims)
+# =====================================================================================================================
+
+
+def runs_of(K, marked):
+    """maximal runs of consecutive positions with the same marked status: [(positions, flag)]"""
+    out = []
+    for i in range(K):
+        f = 1 if i in marked else 0
+        if out and out[-1][1] == f:
+            out[-1][0].append(i)
+        else:
+            out.append(([i], f))
+    return out
+
+
+def subsets(K):
+    for S in itertools.product((0, 1), repeat=K):
+        yield tuple(i for i in range(K) if S[i])
+
+
+@register
+class DimCompressor(Base):
+    """generator of (block size, marked flag): one block per maximal run of equally marked positions, its size the
+    product of the run's dims.  Family `dims>=2`: proved.  Family `dims>=1` (a subsystem of dimension 1 present): the
+    same post-condition is NOT met by the code (blocks of size 1 are dropped / a block of size 0 is emitted) -- see report"""
+
+    target = f"{CORE}::_dim_compressor"
+    floor = 50
+    KS = (1, 2, 3, 4, 5)
+    KS_UNIT = (1, 2, 3)
+    dead_ok = ("if dim < 0:",)
+
+    def cases(self):
+        out = [NS(name=f"K={k},inds={s},dims>=2", K=k, inds=s, lo=2) for k in self.KS for s in subsets(k)]
+        out += [NS(name=f"K={k},inds={s},dims>=1", K=k, inds=s, lo=1) for k in self.KS_UNIT for s in subsets(k)]
+        return out
+
+    def inputs(self, cx, case):
+        return dict(dims=[cx.Int(f"n{i}") for i in range(case.K)], inds=case.inds)
+
+    def requires(self, a, case):
+        return {f"dims>={case.lo}": And(*[n >= case.lo for n in a.dims])}
+
+    @staticmethod
+    def spec(dims, inds):
+        return [(PROD([dims[i] for i in pos]), f) for pos, f in runs_of(len(dims), set(inds))]
+
+    def ensures(self, a, r, cx, case):
+        ys = list(r) if r is not None else list(getattr(cx, "yielded", []))
+        exp = self.spec(a.dims, a.inds)
+        d = {"block-count": len(ys) == len(exp) and all(isinstance(y, tuple) and len(y) == 2 for y in ys)}
+        d["product-of-blocks=product-of-dims"] = (PROD([y[0] for y in ys]) == PROD(a.dims)) if ys else False
+        flags = [y[1] for y in ys]
+        d["flags-alternate"] = all(isinstance(f, int) for f in flags) and all(f in (0, 1) for f in flags) and \
+            all(flags[i] != flags[i + 1] for i in range(len(flags) - 1))
+        if d["block-count"]:
+            d["flags=targeted-runs"] = flags == [f for _, f in exp]
+            d["sizes=products-of-runs"] = And(*[zeq(y[0], e[0]) for y, e in zip(ys, exp)])
+        return d
+
+    def apply(self, cx, a, node, case=None):
+        """callee use (proved family only): the specification itself"""
+        cx.oblige(f"call-pre@{node.lineno}:_dim_compressor:dims>=2", "call-pre", And(*[n >= 2 for n in a.dims]), node.lineno)
+        if any(is_z3(i) for i in a.inds):
+            raise Unsupported("symbolic inds")
+        return tuple(self.spec(list(a.dims), tuple(a.inds)))
+
+
+@register
+class DimCompress(Base):
+    """dim_compress(dims, inds) = (sizes of the maximal runs, positions of the marked runs); the marked positions
+    alternate with the unmarked ones (0, 2, ... or 1, 3, ...).  dims >= 2 (see _dim_compressor for dims of 1)"""
+
+    target = f"{CORE}::dim_compress"
+    floor = 50
+    KS = (1, 2, 3, 4, 5)
+
+    def cases(self):
+        out = [NS(name=f"K={k},inds={s}", K=k, inds=s) for k in self.KS for s in subsets(k)]
+        out += [NS(name=f"K={k},inds=int:{i}", K=k, inds=i) for k in self.KS for i in range(k)]
+        return out
+
+    def inputs(self, cx, case):
+        return dict(dims=[cx.Int(f"n{i}") for i in range(case.K)], inds=case.inds)
+
+    def requires(self, a, case):
+        return {"dims>=2": And(*[n >= 2 for n in a.dims])}
+
+    def ensures(self, a, r, cx, case):
+        inds = (a.inds,) if isinstance(a.inds, int) else a.inds
+        exp = DimCompressor.spec(a.dims, inds)
+        d = {"pair": isinstance(r, tuple) and len(r) == 2 and isinstance(r[0], tuple) and isinstance(r[1], tuple)}
+        if not d["pair"]:
+            return d
+        ndims, ninds = r
+        d["block-count"] = len(ndims) == len(exp)
+        if d["block-count"]:
+            d["sizes=products-of-runs"] = And(*[zeq(x, e[0]) for x, e in zip(ndims, exp)])
+        d["product-preserved"] = PROD(ndims) == PROD(a.dims)
+        d["marked-positions"] = tuple(ninds) == tuple(i for i, (_, f) in enumerate(exp) if f)
+        d["marked-alternate"] = all(isinstance(i, int) for i in ninds) and \
+            (tuple(ninds) in (tuple(range(0, len(ndims), 2)), tuple(range(1, len(ndims), 2))))
+        return d
